@@ -281,4 +281,53 @@ def prun (cfg : PCfg) (acc : Pipe → Bool) (s : PState) : List POp → PState
   | [] => s
   | o :: os => prun cfg acc (pstep cfg acc s o).1 os
 
+/-! ## concurrent creates with persistence: `CreatePipe`'s two critical sections, then `savePipes`
+
+`savePipes` snapshots the registry under the service lock and then writes the snapshot to `pipes.dat`.
+Two calls can take their snapshots in one order and write them in the other — unless the whole of
+`savePipes` is serialized by its own mutex (`serialized`, regenerated from the source:
+`Generated.C19.savePipesSerialized`). A caller is told "created" only after its `savePipes` returned. -/
+
+inductive SPc where
+  | start
+  | checked
+  | snap                       -- registered; about to enter `savePipes`
+  | write (sn : List Pipe)     -- snapshot taken; about to write it
+  | done (ok : Bool)
+deriving DecidableEq, Repr
+
+structure SState where
+  reg : Reg
+  disk : List Pipe             -- content of pipes.dat
+  saver : Option Nat           -- who holds the save mutex (serialized shape only)
+  pcs : List (Pipe × SPc)
+
+/-- actor `a` performs its next atomic step; `none` = nothing to do, or blocked on the save mutex -/
+def sstep (serialized : Bool) (s : SState) (a : Nat) : Option SState :=
+  match s.pcs[a]? with
+  | none => none
+  | some (p, .start) =>
+    match s.reg.find p.name with
+    | some _ => some { s with pcs := s.pcs.set a (p, .done false) }
+    | none => some { s with pcs := s.pcs.set a (p, .checked) }
+  | some (p, .checked) =>
+    match s.reg.find p.name with
+    | some _ => some { s with pcs := s.pcs.set a (p, .done false) }
+    | none => some { s with reg := p :: s.reg, pcs := s.pcs.set a (p, .snap) }
+  | some (p, .snap) =>
+    if serialized then
+      match s.saver with
+      | some _ => none
+      | none => some { s with saver := some a, pcs := s.pcs.set a (p, .write s.reg) }
+    else some { s with pcs := s.pcs.set a (p, .write s.reg) }
+  | some (p, .write sn) =>
+    some { s with disk := sn, saver := if serialized then none else s.saver, pcs := s.pcs.set a (p, .done true) }
+  | some (_, .done _) => none
+
+def srun (serialized : Bool) (s : SState) : List Nat → SState
+  | [] => s
+  | a :: as => match sstep serialized s a with
+    | some s' => srun serialized s' as
+    | none => srun serialized s as
+
 end Logrange.Registry
